@@ -164,7 +164,9 @@ def gen_plan(seed: int, run: int, tier: str) -> dict:
             # a trial created already finished (Study.add_trial): lands above any WAITING trial
             ks = [k for k in pool_names if rng.random() < p_inc]
             value[0] += 1
-            s.append({"op": "add", "state": tell_state(), "value": float(value[0] % 7), "dists": {k: POOL[k][0] for k in ks}})
+            # "reuse": the worker keeps one FrozenTrial object, rewrites its fields in place and
+            # adds it again (the storage must have taken its own copy each time)
+            s.append({"op": "add", "state": tell_state(), "value": float(value[0] % 7), "dists": {k: POOL[k][0] for k in ks}, "reuse": rng.random() < 0.5})
         elif rng.random() < 0.12:
             # the calculators go through pickle / deepcopy (samplers holding them are pickled
             # for workers, studies are deep-copied) and are used on afterwards
@@ -427,6 +429,8 @@ def _run(plan: dict, sim: sched.Sim, ch: sched.Chooser, dep: deploy.Deployment) 
     verdict: list[_Violation] = []
     trace: list[str] = []
 
+    reusable: dict[str, Any] = {}
+
     def make_worker(name: str, script: list[dict]) -> Any:
         ctx = ctxs[min(plan["wctx"].get(name, 0), len(ctxs) - 1)]
         study = ctx.study
@@ -494,6 +498,21 @@ def _run(plan: dict, sim: sched.Sim, ch: sched.Chooser, dep: deploy.Deployment) 
                         dists = {n_: _mkdist(d) for n_, d in sorted(op["dists"].items())}
                         params = {n_: _lowest(d) for n_, d in sorted(op["dists"].items())}
                         ft = optuna.trial.create_trial(state=st, value=op.get("value", 0.0) if st == TrialState.COMPLETE else None, params=params, distributions=dists)
+                        if op.get("reuse"):
+                            old = reusable.get(name)
+                            if old is None:
+                                reusable[name] = ft
+                            else:
+                                # same object as last time, every field rewritten in place
+                                old.params.clear()
+                                old.params.update(params)
+                                old.distributions.clear()
+                                old.distributions.update(dists)
+                                old.state = st
+                                old.values = ft.values
+                                old.datetime_complete = ft.datetime_complete
+                                ft = old
+                                sim.count("added_reused_object")
                         try:
                             study.add_trial(ft)
                             sim.count("added_finished")
